@@ -10,7 +10,8 @@ LEVEL = "exploration"
 CHUNK = 1
 CASE_TIMEOUT = 900
 REQUIRED_COUNTERS = ["tolerance_runs", "returned_mappings_validated"]
-RULE = ("specs of the small-spec family (tight capacities over-represented) x objective_tolerance / "
+RULE = ("specs of the small-spec family (tight capacities over-represented; half of them re-expressed in other units so "
+        "that the optimum is of order 1 - between 0.05 and 20 - where logarithmic rounding buckets change sign) x objective_tolerance / "
         "resource_usage_tolerance in {0.01, 0.1, 0.5} applied separately and together, metrics ENERGY / LATENCY / EDP: "
         "the best returned objective must lie in [exact, (1+t) x exact] where exact is the zero-tolerance optimum of the "
         "same spec, and every returned mapping must be accepted by the model on its own (capacity included) when "
@@ -30,7 +31,10 @@ def gen_cases(tier, seed):
         d = gs.gen_spec(rnd, rnd.choice(["mm1", "mm1", "mv1", "chain2", "fanin2", "mvchain2"]), levels=rnd.choice([2, 2, 3]),
                         size_class=rnd.choice(["tight", "tight", "generous", "inf"]))
         cases.append({"class": d["class"].split("/")[0] + "/" + d["arch"]["size_class"], "desc": d,
-                      "metric": rnd.choice(["ENERGY", "LATENCY", "ENERGY_DELAY_PRODUCT"]), "seed": rnd.randrange(2**31)})
+                      "metric": rnd.choice(["ENERGY", "LATENCY", "ENERGY_DELAY_PRODUCT"]), "seed": rnd.randrange(2**31),
+                      "unit_scale": i % 2 == 1})
+        if cases[-1]["unit_scale"]:
+            cases[-1]["class"] += "/unit-scale"
     return cases
 
 
@@ -49,7 +53,31 @@ def run_case(case):
     if base is None:
         return {"status": "ok", "counters": {"no_valid_mapping": 1}}
     exact = min(H.objective(r, metric) for r in base)
+    if case.get("unit_scale") and exact > 0:
+        # the same spec in other UNITS (joules instead of picojoules): costs rescaled so that the optimum - and
+        # with it the per-Einsum parts the tolerance rounding works on - is of order 1
+        # mostly just below 1: the bucket around log(x) = 0 is where rounding toward zero and rounding to nearest differ
+        target = rnd.uniform(0.68, 0.99) if rnd.random() < 0.7 else 10 ** rnd.uniform(-1.3, 1.3)
+        d = copy.deepcopy(d)
+        e_scale = target / exact if metric == "ENERGY" else ((target / exact) ** 0.5 if metric == "ENERGY_DELAY_PRODUCT" else 1.0)
+        l_scale = target / exact if metric == "LATENCY" else ((target / exact) ** 0.5 if metric == "ENERGY_DELAY_PRODUCT" else 1.0)
+        for mm in d["arch"]["mems"]:
+            for k in ("read_e", "write_e"):
+                if isinstance(mm.get(k), (int, float)):
+                    mm[k] = mm[k] * e_scale
+            for k in ("read_tp", "write_tp"):
+                if isinstance(mm.get(k), (int, float)):
+                    mm[k] = mm[k] / l_scale
+        d["arch"]["mac"]["energy"] = d["arch"]["mac"]["energy"] * e_scale
+        d["arch"]["mac"]["tp"] = d["arch"]["mac"]["tp"] / l_scale
+        base = run(d)
+        if base is None:
+            return {"status": "inconclusive", "reason": "rescaled spec has no mapping", "counters": counters}
+        exact = min(H.objective(r, metric) for r in base)
+        counters["unit_scale_specs"] = 1
     combos = [(rnd.choice(TOLS), 0), (0, rnd.choice(TOLS)), (rnd.choice(TOLS), rnd.choice(TOLS))]
+    if case.get("unit_scale"):
+        combos = [(0.5, 0), (rnd.choice(TOLS), 0), (0.5, rnd.choice(TOLS))]
     sample = None
     for t_obj, t_res in combos:
         d2 = copy.deepcopy(d)
